@@ -654,6 +654,14 @@ fn run_case(stream: &str, f: &[&str]) -> String {
                 Err(_) => "err".to_string(),
             }
         }
+        "calcf" => {
+            // the printed result itself (float mode included): compared on the exactly representable class only
+            let line = unhex(f[0]);
+            match vh::run_calculator(&line) {
+                Ok(s) => format!("ok|{}", hex(&s)),
+                Err(_) => "err".to_string(),
+            }
+        }
         _ => format!("UNKNOWN-STREAM {}", stream),
     }
 }
